@@ -17,6 +17,10 @@ def ev_kind(c, k, name):
     return Event.e_kind(c.event_at(k)) == c.ctx.E.event_kind(name)
 
 
+def fn_kind(c, k, name):
+    return Event.e_kind(c.fn_event_at(k)) == c.ctx.E.event_kind(name)
+
+
 def orphaned(c, F_term, who, value):
     """F is an OrphanedReturn carrying exactly the returned value and the payload"""
     F = c.view_term(F_term, TObj(ORPH, who=TAny(), value=TAny()), c.new_heap)
@@ -972,3 +976,145 @@ class base_ready:
 
     def emits(c, ctx, self):
         ctx.emit("ready", self)
+
+
+# ================================================================================ trio runner internals (C02, C03, C11)
+TrioFull = TObj(TRIO_CLS, asyncio_loop=ALoop, _logger=PyLogger, _stopped=TEvent, _ready=AEvent, _trio_token=TOpt(TRef()), _submit_tasks=TOpt(Chan))
+
+
+@contract(RUN + "trio_runner:TrioRunner._manage_payloads_trio", props=["C02", "C03", "C11"])
+class manage_payloads_trio:
+    """inside the single trio run: publishes the run's token and a fresh channel FIRST and only then announces readiness
+    (guarantee matching the rely of ready()); every received payload is started exactly once in this run's nursery; when the
+    channel ends, the nursery's scope is cancelled INSIDE the nursery block, which is left only after all children finished"""
+    params = dict(self=TrioFull)
+    has_events = True
+    result = TAny()
+
+    def writes(c, self):
+        return [(self, "_trio_token"), (self, "_submit_tasks")]
+
+    def ensures(c, self, result):
+        n = c.n_events()
+        tok = z3.Const("the_trio_token", Z.Val)
+        return {
+            "token-of-this-run-published-once": self._trio_token.t == tok,
+            "channel-published": self._submit_tasks != None,
+            "readiness-announced-after-publishing": c.And(ev_kind(c, 0, "open_memory_channel"), Event.e_a(c.event_at(0)) == self._submit_tasks.t,
+                                                          ev_kind(c, 1, "call_soon_threadsafe"), Event.e_a(c.event_at(1)) == self.asyncio_loop.t),
+            "cancels-all-payloads-inside-the-nursery-once-the-channel-ends": c.And(
+                ev_kind(c, 2, "nursery.enter"), ev_kind(c, n - 3, "chan.end"), ev_kind(c, n - 2, "scope.cancel"), ev_kind(c, n - 1, "nursery.exit"),
+                Event.e_a(c.event_at(n - 1)) == Event.e_a(c.event_at(2))),
+        }
+
+    # whatever ends the trio run, token and channel have been published before (they are stored first)
+    raises = {"BaseException": lambda c, self, exc: c.And(self._trio_token != None, self._submit_tasks != None)}
+
+    loops = {
+        0: Loop(
+            inv=lambda c, L, k: {"same-runner-and-nursery": c.And(
+                c.unchanged(L.self, "asyncio_loop", "_ready"), L.self._trio_token.t == z3.Const("the_trio_token", Z.Val),
+                c.fn_n_events() >= 3, fn_kind(c, 0, "open_memory_channel"), Event.e_a(c.fn_event_at(0)) == L.self._submit_tasks.t,
+                fn_kind(c, 1, "call_soon_threadsafe"), Event.e_a(c.fn_event_at(1)) == L.self.asyncio_loop.t,
+                fn_kind(c, 2, "nursery.enter"), Event.e_a(c.fn_event_at(2)) == L.nursery.t)},
+            modifies=lambda c, L: [("trace",)],
+            local_types={"task": TAny()},
+            step=lambda c, L, L0: {
+                "each-received-payload-is-started-exactly-once-in-this-nursery-through-the-monitor": c.And(
+                    c.n_events() == 2, c.event_at(1) == c.event("start_soon", L.nursery, c.bound_method(L.self, RUN + "trio_runner:TrioRunner._monitor_payload"), L.task)),
+            },
+        )
+    }
+
+
+@contract(RUN + "trio_runner:TrioRunner._run_trio_blocking", props=["C11"])
+class run_trio_blocking:
+    """exactly one trio.run per call, of this runner's own _manage_payloads_trio, on the calling (executor) thread"""
+    params = dict(self=TrioFull)
+    has_events = True
+    result = TAny()
+
+    def writes(c, self):
+        return [(self, "_trio_token"), (self, "_submit_tasks")]
+
+    def ensures(c, self, result):
+        return {"one-trio-run-of-this-runner": c.event_at(0) == c.event("trio.run", RUN + "trio_runner:TrioRunner._manage_payloads_trio", self),
+                "token-and-channel-published": c.And(self._trio_token != None, self._submit_tasks != None)}
+
+    # RELY for the caller's cancellation path: the await on the executor is cancelled only after ready() (the meta runner
+    # awaits ready() before anything can cancel a runner task), i.e. after the trio thread has published token and channel
+    raises = {"BaseException": lambda c, self, exc: c.And(c.event_at(0) == c.event("trio.run", RUN + "trio_runner:TrioRunner._manage_payloads_trio", self),
+                                                          self._trio_token != None, self._submit_tasks != None)}
+
+
+# ================================================================================ closing (C02)
+@contract(RUN + "trio_runner:TrioRunner._aclose_trio", props=["C02"])
+class aclose_trio:
+    """closes the send channel (which ends the receive loop and so cancels the nursery); a cancellation while closing is absorbed"""
+    params = dict(self=TrioR3)
+    has_events = True
+
+    def requires(c, self):
+        return self._submit_tasks != None
+
+    def writes(c, self):
+        return [(self._submit_tasks, "closed")]
+
+    def ensures(c, self):
+        return {"close-requested-on-the-runners-channel": c.events_are(c.event("chan.aclose", self._submit_tasks))}
+
+
+@contract(RUN + "trio_runner:TrioRunner.aclose", props=["C02"])
+class trio_aclose:
+    announce = True
+    """unless the runner is already stopped, its channel is closed from inside the trio thread (through an executor thread,
+    so the asyncio loop is not blocked) - or the trio run is already over; raises nothing but what the executor call raises"""
+    params = dict(self=TrioR3)
+    has_events = True
+
+    def requires(c, self):
+        return c.And(self._trio_token != None, self._submit_tasks != None)
+
+    def writes(c, self):
+        return [(self._submit_tasks, "closed")]
+
+    def ensures(c, self):
+        stopped = flag(c.old(self._stopped), "isset")
+        tok = self._trio_token
+        n = c.n_events()
+        return {
+            "no-op-when-already-stopped": c.Implies(stopped, c.no_events()),
+            "otherwise-closed-inside-the-trio-thread-or-the-run-is-over": c.Implies(c.Not(stopped), c.And(
+                ev_kind(c, 0, "run_in_executor"), Event.e_a(c.event_at(0)) == self.asyncio_loop.t,
+                c.Or(c.And(n == 3, c.event_at(1) == c.event("in-trio-thread", tok), c.event_at(2) == c.event("chan.aclose", self._submit_tasks)),
+                     c.And(n == 2, c.Or(c.event_at(1) == c.event("from_thread.run-finished", tok), c.event_at(1) == c.event("from_thread.run-cancelled", tok)))))),
+        }
+
+    # called from the loop thread never hits "same thread"; a bare RuntimeError would mean exactly that misuse
+    raises = {"RuntimeError": lambda c, self, exc: c.event_at(1) == c.event("from_thread.run-same-thread", self._trio_token)}
+
+
+@contract(RUN + "trio_runner:TrioRunner.manage_payloads", props=["C02", "C11"])
+class trio_manage:
+    """the trio run happens on an executor thread (never on the loop thread); its outcome is the outcome of manage_payloads;
+    if the awaiting task is cancelled, the runner is closed (awaited) BEFORE the cancellation is re-raised"""
+    params = dict(self=TrioFull)
+    has_events = True
+    result = TAny()
+
+    def requires(c, self):
+        return True
+
+    def writes(c, self):
+        return [(self, "_trio_token"), (self, "_submit_tasks"), ("all", "closed", lambda x: True)]
+
+    def ensures(c, self, result):
+        return {"trio-runs-on-an-executor-thread": c.And(ev_kind(c, 0, "run_in_executor"), Event.e_a(c.event_at(0)) == self.asyncio_loop.t,
+                                                         Event.e_b(c.event_at(0)) == c.bound_method(self, RUN + "trio_runner:TrioRunner._run_trio_blocking"))}
+
+    def _r(c, self, exc):
+        call = c.ctx.E.event_kind("call")
+        closed_first = has_event(c, lambda e: z3.And(Event.e_kind(e) == call, Event.e_a(e) == Z.mk_str(RUN + "trio_runner:TrioRunner.aclose"), Event.e_b(e) == self.t))
+        return c.And(ev_kind(c, 0, "run_in_executor"), c.Implies(exc.isa("asyncio.CancelledError"), closed_first))
+
+    raises = {"BaseException": _r}
